@@ -24,6 +24,11 @@ OBLIGATIONS = [
      "defs": ["-DCL=5"], "unwind": 40, "timeout": 300,
      "title": "sm9_do_decrypt accepts only if all 32 bytes of C3 equal HMAC(K2, C2); M = C2 xor K1", "bounds": "C2 of 5 bytes, all contents",
      "stubs": ["sm9_kem_decrypt: arbitrary key material / verdict", "sm3_hmac_*: ideal MAC probe"]},
+    {"id": "C17.sm9_encrypt_mac", "harness": "harness/C17/dec.c", "entry": "h_sm9_encrypt", "units": ["sm9_enc.c"],
+     "remove": {"sm9_enc.c": ["sm9_kem_decrypt", "sm9_kem_encrypt", "sm9_do_decrypt", "sm9_encrypt", "sm9_decrypt", "sm9_ciphertext_to_der", "sm9_ciphertext_from_der", "sm9_ciphertext_print"]},
+     "defs": ["-DCL=5"], "unwind": 40, "timeout": 300,
+     "title": "sm9_do_encrypt: C2 = M xor K1, C3 = HMAC(K2, C2), K2 taken right after K1; fails iff the encapsulation fails", "bounds": "M of 5 bytes, all contents",
+     "stubs": ["sm9_kem_encrypt: arbitrary key material / verdict", "sm3_hmac_*: ideal MAC probe"]},
 ]
 SP_RM = ["sm9_z256_modp_add", "sm9_z256_modp_sub", "sm9_z256_modp_dbl", "sm9_z256_modp_tri", "sm9_z256_modp_neg", "sm9_z256_modp_haf", "sm9_z256_modp_mont_mul", "sm9_z256_modp_mont_inv"]
 FP2_RM = ["sm9_z256_fp2_mul", "sm9_z256_fp2_sqr", "sm9_z256_fp2_mul_u", "sm9_z256_fp2_sqr_u", "sm9_z256_fp2_a_mul_u", "sm9_z256_fp2_inv"]
